@@ -61,6 +61,7 @@ type c10Act struct {
 	rec    *c10Pan    // panic a direct recover() in this activation may stop (nil: none)
 	left   bool       // a catch block of this activation was left by break / continue (coverage only)
 	kind   byte       // 'u' / 'n' / 0: result kind of the function (0 for a deferred closure)
+	minPos int        // smallest text position of a defer statement registered so far (0: none)
 	retErr bool       // an error is travelling up from the expression of an unnamed-result return
 	//                   statement that had deferred calls to run first
 }
@@ -80,6 +81,12 @@ type c10Ref struct {
 	retExprFailed bool
 	retExprs      int // return-with-expression statements executed with >= 1 deferred call registered
 	regs          map[int]int // defer statement -> times registered
+	env           map[int]int // loop id -> counter (ids are unique, a function is never active twice)
+	// coverage only: return statements executed with >= 1 deferred call registered, all of them by
+	// defer statements written BEHIND the return statement (the return was skipped on earlier passes
+	// of a loop); and how many calls were registered at that moment
+	lateRets      int
+	lateRetDefers int
 	starts        []int       // deferred closures started, in order
 	inProgress     int  // panics currently unwinding (dynamic nesting)
 	recovered      int
@@ -143,12 +150,24 @@ func (m *c10Ref) stmt(s *c10Stmt, a *c10Act) c10Sig {
 	case 'D':
 		a.defers = append(a.defers, s)
 		m.regs[s.ID]++
+
+		if a.minPos == 0 || s.Pos < a.minPos {
+			a.minPos = s.Pos
+		}
 	case 'C':
 		return m.activation(m.p[s.N], nil, c10Kind(m.p[s.N]))
 	case 'X':
+		m.late(s, a)
+
 		return c10Return
+	case 'I':
+		if m.env[s.ID] == s.N {
+			return m.block(s.A, a)
+		}
 	case 'Y', 'Z', 'W':
 		ran := false
+
+		m.late(s, a)
 
 		if len(a.defers) > 0 {
 			m.retExprs++
@@ -192,6 +211,7 @@ func (m *c10Ref) stmt(s *c10Stmt, a *c10Act) c10Sig {
 		return sg
 	case 'L':
 		for i := 0; i < s.N; i++ {
+			m.env[s.ID] = i
 			sg := m.block(s.A, a)
 			if sg == c10Break {
 				break
@@ -220,6 +240,15 @@ func (m *c10Ref) stmt(s *c10Stmt, a *c10Act) c10Sig {
 	}
 
 	return c10Normal
+}
+
+// late counts (coverage) a return statement written ahead of every defer statement that has
+// registered a call in this activation.
+func (m *c10Ref) late(s *c10Stmt, a *c10Act) {
+	if len(a.defers) > 0 && s.Pos < a.minPos {
+		m.lateRets++
+		m.lateRetDefers += len(a.defers)
+	}
 }
 
 // runDefers runs the deferred calls registered in a and not yet run, last registered first; each
@@ -315,7 +344,7 @@ func (m *c10Ref) activation(body []c10Stmt, rec *c10Pan, kind byte) c10Sig {
 func c10Reference(p c10Prog) (trace []string, status string, m *c10Ref) {
 	c10NumberDefers(p)
 
-	m = &c10Ref{p: p, regs: map[int]int{}}
+	m = &c10Ref{p: p, regs: map[int]int{}, env: map[int]int{}}
 
 	switch m.activation(p[0], nil, c10Kind(p[0])) {
 	case c10Normal:
@@ -374,6 +403,10 @@ func c10RenderGoBlock(sb *strings.Builder, prefix string, b []c10Stmt, kind byte
 			fmt.Fprintf(sb, "if always { return %sf%d() }\n", prefix, s.N)
 		case 'L':
 			fmt.Fprintf(sb, "for i%d := 0; i%d < %d; i%d = i%d + 1 {\n", s.ID, s.ID, s.N, s.ID, s.ID)
+			c10RenderGoBlock(sb, prefix, s.A, kind)
+			sb.WriteString("}\n")
+		case 'I':
+			fmt.Fprintf(sb, "if i%d == %d {\n", s.ID, s.N)
 			c10RenderGoBlock(sb, prefix, s.A, kind)
 			sb.WriteString("}\n")
 		case 'B':
